@@ -57,6 +57,16 @@ def slice (s : Str) (a b : Nat) : Str := (s.drop a).take (b - a)
 /-- value of a list of decimal digit values, most significant first -/
 def digitsVal (ds : List Nat) : Nat := ds.foldl (fun acc d => acc * 10 + d) 0
 
+/-- the white space `int(str)` removes: CPython maps *non-ASCII* Unicode spaces to ' '
+(`_PyUnicode_TransformDecimalAndSpaceToASCII` copies ASCII characters unchanged) and
+`PyLong_FromString` then skips `Py_ISSPACE` characters, i.e. \t \n \v \f \r and space —
+not the ASCII separators FS/GS/RS/US that `str.isspace()` also accepts -/
+def Env.isIntSpace (e : Env) (c : Char) : Bool :=
+  if isAscii c then (9 ≤ c.toNat && c.toNat ≤ 13) || c.toNat = 32 else e.isSpaceNA c
+
+def Env.intStrip (e : Env) (s : Str) : Str :=
+  ((s.dropWhile e.isIntSpace).reverse.dropWhile e.isIntSpace).reverse
+
 /-- The digit/underscore body accepted by `int(s, 10)` after sign and white
 space removal: nonempty, starts and ends with a digit, underscores only singly
 between digits. Returns the digit values. -/
@@ -77,7 +87,7 @@ def intBody (e : Env) : Str → Bool → Option (List Nat)
 CPython first maps Unicode spaces to ASCII space and Unicode decimals to ASCII
 digits, strips, then parses `[+-]? digit (_? digit)*`. -/
 def Env.pyInt (e : Env) (s : Str) : Option Int :=
-  let t := e.strip s
+  let t := e.intStrip s
   match t with
   | [] => none
   | c :: cs =>
